@@ -1385,13 +1385,22 @@ class IndexLaw:
     def _outcome(self, mp, k, z):
         script = Script()
         script.register(mp, ('i',))
-        script.push(('i',), z, 0.0)                      # 0.0: a draw that is always accepted (stay)
+        # after z: a draw of 0.0 ("stay": accepted when successive jumps are allowed), then one unit
+        # step each way (one of them is inside the bounds); whichever the code accepts, a SECOND
+        # request means that the first draw z was rejected (or, for z == 0.0 without successive
+        # jumps, redrawn: not an outcome of its own, it has probability zero)
+        if z == 0.0:
+            z = 5e-324      # a draw of exactly zero has probability zero; evaluate its right limit
+        script.push(('i',), z, 0.0, 0.75, -0.75, 1.75, -1.75)
         with patched_generator(lambda owner: ScriptedGen(script, owner)):
-            out = mp.jump({'k': k})
+            try:
+                out = mp.jump({'k': k})
+            except ScriptError:
+                out = None
         self.evals += 1
         used = len(script.log)
         self.scale = script.log[0][2][1]
-        if used == 2:
+        if used >= 2 or out is None:
             return 'rej-' if z < 0 else 'rej+'
         return int(out['k'])
 
